@@ -7,7 +7,7 @@ from ..frontend import kids, walk, qn, qtype, dtype, pos, ancestors, AnalysisBro
 from ..expr import callee, call_args, peel, Keys
 from ..callgraph import fname
 from ..lock import LockRegions
-from .c20 import cache_refs, map_access, FACTORY
+from .c20 import cache_refs, map_access, mentions_cache, FACTORY
 
 
 def find_loader(ctx):
@@ -17,7 +17,7 @@ def find_loader(ctx):
     for (steps, edge) in chains:
         for (k, site) in steps:
             u, f = G.defs[k]
-            if cache_refs(u, f):
+            if cache_refs(u, f, G):
                 owners.setdefault(k, []).append(site)
                 break
     if len(owners) != 1:
@@ -43,11 +43,8 @@ def _init(d):
     return ks[-1] if ks and 'init' in d else None
 
 
-def _mentions_decl(e, ids):
-    for x in walk(e):
-        if x.get('kind') == 'DeclRefExpr' and (x.get('referencedDecl') or {}).get('id') in ids:
-            return True
-    return False
+def _mentions_decl(e, ids, G=None, u=None):
+    return mentions_cache(G, u, e, ids)
 
 
 def analyse(ctx):
@@ -59,7 +56,7 @@ def analyse(ctx):
     F = ctx.facts(f)
     g = ctx.cfg(f)
     lr = LockRegions(u, f)
-    crefs = cache_refs(u, f)
+    crefs = cache_refs(u, f, G)
     map_ids = set(d['id'] for (d, n) in crefs)
     mapkeys = set('%s#%s' % (d.get('name'), d.get('id')) for (d, _) in crefs)
     keys = F.keys
@@ -72,7 +69,7 @@ def analyse(ctx):
         if init is None:
             continue
         t = qtype(d)
-        if _mentions_decl(init, map_ids):
+        if _mentions_decl(init, map_ids, G, u):
             cachederived_ids.add(i)
             if t.rstrip().endswith('&'):
                 x = peel(init)
@@ -81,7 +78,7 @@ def analyse(ctx):
                     if c and c[0] == 'fn' and c[1].get('name') == 'operator[]':
                         slot_ids.add(i)
         if 'unique_ptr' in (dtype(d) or t) or any(x.get('kind') == 'CXXNewExpr' for x in walk(init)):
-            if not _mentions_decl(init, map_ids):
+            if not _mentions_decl(init, map_ids, G, u):
                 private_ids.add(i)
         x = peel(init)
         if x is not None and x.get('kind') == 'CallExpr':
@@ -99,7 +96,7 @@ def analyse(ctx):
         ids = set((y.get('referencedDecl') or {}).get('id') for y in walk(x) if y.get('kind') == 'DeclRefExpr')
         if ids & private_ids:
             return 'private', x
-        if ids & (cachederived_ids | map_ids):
+        if ids & (cachederived_ids | map_ids) or mentions_cache(G, u, x, set()):
             return 'cache', x
         if ids & utc_ids:
             return 'utc', x
@@ -118,7 +115,7 @@ def analyse(ctx):
             is_slot = d is not None and d['id'] in slot_ids
             if not is_slot:
                 l = peel(lhs)
-                if l.get('kind') == 'CXXOperatorCallExpr' and _mentions_decl(l, map_ids):
+                if l.get('kind') == 'CXXOperatorCallExpr' and _mentions_decl(l, map_ids, G, u):
                     is_slot = True
             if not is_slot:
                 continue
@@ -160,7 +157,7 @@ def analyse(ctx):
     # insertion through emplace / insert / try_emplace (insert-if-absent) or insert_or_assign
     for x in walk(f):
         if x.get('kind') == 'CXXMemberCallExpr' and callee(x) and callee(x)[1] in ('emplace', 'try_emplace', 'insert', 'insert_or_assign') \
-                and callee(x)[2] is not None and _mentions_decl(callee(x)[2], map_ids):
+                and callee(x)[2] is not None and _mentions_decl(callee(x)[2], map_ids, G, u):
             args = call_args(x)
             if len(args) < 2:
                 continue
@@ -211,6 +208,10 @@ def analyse(ctx):
                 out_assigns.append(dict(node=x, source=src, text=keys.key(args[1])[:80], value=val,
                                         valkey=keys.key(val)))
 
+    # a pointer handed back by a cache helper's lookup (null = absent)
+    ptrkeys = set('%s#%s' % (locs[i].get('name'), i) for i in cachederived_ids
+                  if i not in slot_ids and qtype(locs[i]).rstrip().endswith('*') and _init(locs[i]) is not None
+                  and peel(_init(locs[i])).get('kind') == 'CallExpr')
     # ---- hit edges: cond edges that establish  itr != map.end()  (or count()/contains())
     hit_edges = []
     for n in g.live:
@@ -220,7 +221,10 @@ def analyse(ctx):
                     txt = a + ' ' + b
                     if op == '!=' and any(mk in txt for mk in mapkeys) and '.end()' in txt:
                         hit_edges.append((n, lab))
+                    elif op == '!=' and 'null' in (a, b) and (a if b == 'null' else b) in ptrkeys:
+                        hit_edges.append((n, lab))
     site_nodes = [sn for s in sites for sn in g.nodes_for(s)]
+    hit_edges = [e for i, e in enumerate(hit_edges) if not any(e[0] is p[0] and e[1] == p[1] for p in hit_edges[:i])]
     hits = []
     for (n, lab) in hit_edges:
         tgt = [m for (m, l) in n.succs if l == lab]
@@ -258,13 +262,14 @@ def analyse(ctx):
     return ctx._loader
 
 
-def _reach_from(g, starts, targets):
+def _reach_from(g, starts, targets, cut=()):
     tg = set(n.id for n in targets)
+    cutids = set(n.id for n in cut)
     seen = set()
     stack = list(starts)
     while stack:
         n = stack.pop()
-        if n.id in seen:
+        if n.id in seen or n.id in cutids:
             continue
         seen.add(n.id)
         if n.id in tg:
@@ -290,7 +295,7 @@ def _returns_singleton(ctx, d):
         dd = u.by_id.get((x.get('referencedDecl') or {}).get('id'))
         if dd is None or dd.get('storageClass') != 'static' or (dd.get('_p') or {}).get('kind') != 'DeclStmt':
             return False
-        t = qtype(dd)
+        t = re.sub(r'\*\s*const\s*$', '*', qtype(dd).strip())
         if not (t.startswith('const ') and t.rstrip().endswith('*')):
             return False
     return True
